@@ -2,6 +2,7 @@ package exif2
 
 import (
 	"bufio"
+	"io"
 	"sync"
 
 	"github.com/rs/zerolog"
@@ -59,15 +60,27 @@ func (b *buffer) validTag() bool {
 func (ir *ifdReader) readTagValue() (buf []byte, err error) {
 	t := ir.buffer.currentTag()
 	if err := ir.discard(int(t.ValueOffset) - int(ir.po)); err != nil {
+		ir.noteEnd(err)
 		return nil, err
 	}
-	return ir.fastRead(int(t.Size()))
+	buf, err = ir.fastRead(int(t.Size()))
+	ir.noteEnd(err)
+	return buf, err
+}
+
+// noteEnd remembers that the source of the block has ended.
+func (ir *ifdReader) noteEnd(err error) {
+	if err == io.EOF || err == io.ErrUnexpectedEOF {
+		ir.ended = true
+	}
 }
 
 // seekToTag seeks with the underlying reader to given tag value
 func (ir *ifdReader) seekToTag(t Tag) (err error) {
 	discard := int(t.ValueOffset) - int(ir.po)
-	if err = ir.discard(discard); err != nil && ir.logLevelError() {
+	err = ir.discard(discard)
+	ir.noteEnd(err)
+	if err != nil && ir.logLevelError() {
 		t.logTag(ir.logError(err)).Uint32("ifdReaderPosition", ir.po).Uint32("discard", uint32(discard)).Send()
 	}
 	return
